@@ -4,6 +4,7 @@ import (
 	"fmt"
 	"go/token"
 	"go/types"
+	"strings"
 
 	"golang.org/x/tools/go/ssa"
 
@@ -485,4 +486,82 @@ func reachingStoreInBlock(v ssa.Value) ssa.Value {
 		}
 	}
 	return last
+}
+
+// ---------------------------------------------------------------------------
+// G6
+
+func init() {
+	register("G6", "parsing is one pipeline: every tree that Config.Parse returns is what the block parser made of the tokens that the scanner made of the whole source with the configured delimiters - no path answers without scanning", runG6)
+}
+
+func runG6(p *an.Prog, r *an.Result) {
+	fn := p.Func("(parser.Config).Parse")
+	if fn == nil {
+		r.Bad("-", "(parser.Config).Parse not found", token.NoPos, "anchor not resolved")
+		return
+	}
+	name := an.FuncName(fn)
+	nRet := 0
+	for _, f := range unitWithHelpers(p, fn) {
+		if f != fn {
+			continue
+		}
+		an.EachInstr(f, func(in ssa.Instruction) {
+			ret, ok := in.(*ssa.Return)
+			if !ok {
+				return
+			}
+			nRet++
+			r.Counts["returns"]++
+			res := resultsOf(ret)
+			// the tree: result 0 of a call to the block parser
+			var pt *ssa.Call
+			for _, o := range an.Origins(res[0], an.StepValue) {
+				if ex, ok := o.(*ssa.Extract); ok && ex.Index == 0 {
+					if c, ok := ex.Tuple.(*ssa.Call); ok && c.Call.StaticCallee() != nil && c.Call.StaticCallee().Name() == "parseTokens" {
+						pt = c
+						continue
+					}
+				}
+				if c, ok := o.(*ssa.Const); ok && c.IsNil() {
+					continue
+				}
+				r.Bad(name, "a tree that did not come out of the block parser", ret.Pos(), fmt.Sprintf("Parse can return %s: some input is answered without tokenising and block-parsing it (under other delimiters the same text is a template)", describe(p, o)))
+				return
+			}
+			if pt == nil {
+				if an.IsNilConst(res[len(res)-1]) {
+					r.Bad(name, "success without a parsed tree", ret.Pos(), "Parse returns no error and no tree from the block parser")
+				} else {
+					r.OK(name, "error return", ret.Pos(), "")
+				}
+				return
+			}
+			// its tokens: the scanner's result for (source, loc, c.Delims)
+			okScan := false
+			for _, o := range an.Origins(pt.Call.Args[len(pt.Call.Args)-1], an.StepValue) {
+				sc, ok := o.(*ssa.Call)
+				if !ok || sc.Call.StaticCallee() == nil || sc.Call.StaticCallee().Name() != "Scan" {
+					continue
+				}
+				srcOK := false
+				for _, so := range an.Origins(sc.Call.Args[0], an.StepValue) {
+					if an.Deref(so) == ssa.Value(fn.Params[1]) || so == ssa.Value(fn.Params[1]) {
+						srcOK = true
+					}
+				}
+				delimsOK := strings.HasSuffix(describe(p, sc.Call.Args[len(sc.Call.Args)-1]), ".Delims")
+				if srcOK && delimsOK {
+					okScan = true
+				}
+			}
+			if okScan {
+				r.OK(name, "parseTokens(Scan(source, loc, c.Delims))", ret.Pos(), "the returned tree is the block parser's result for the scanner's tokens of the whole source under the configured delimiters")
+			} else {
+				r.Bad(name, "the block parser is not fed the scanner's tokens of the source", ret.Pos(), "the tokens must be Scan(source, loc, c.Delims)")
+			}
+		})
+	}
+	r.Floor("returns", 1)
 }
